@@ -19,6 +19,7 @@
 package ethdb
 
 import (
+	"github.com/dappledger/AnnChain/gemmill/utils/verifhook"
 	"bytes"
 	"fmt"
 	"strconv"
@@ -115,6 +116,7 @@ func (db *LDBDatabase) Path() string {
 
 // Put puts the given key / value to the queue
 func (db *LDBDatabase) Put(key []byte, value []byte) error {
+	verifhook.Write("ethdb.Put", key)
 	return db.db.Put(key, value, nil)
 }
 
@@ -160,6 +162,7 @@ func (db *LDBDatabase) Get(key []byte) ([]byte, error) {
 
 // Delete deletes the key from the queue and database
 func (db *LDBDatabase) Delete(key []byte) error {
+	verifhook.Write("ethdb.Delete", key)
 	return db.db.Delete(key, nil)
 }
 
@@ -413,6 +416,9 @@ func (b *ldbBatch) Delete(key []byte) error {
 }
 
 func (b *ldbBatch) Write() error {
+	if verifhook.Enabled {
+		verifhook.Write("ethdb.batch", b.b.Dump())
+	}
 	return b.db.Write(b.b, nil)
 }
 
